@@ -78,6 +78,8 @@ def _eval_str_chain(e: ast.AST, var: str, value: str):
         args = [_eval_str_chain(a, var, value) for a in e.args]
         if cn == "int":
             return int(args[0])
+        if cn == "len":
+            return len(args[0])
         if cn in ("os.path.basename",):
             return args[0].rsplit("/", 1)[-1]
         if cn in ("os.path.split",):
@@ -106,9 +108,13 @@ def run(ctx) -> None:
     for m in scope:
         idx.module(m)
     n_src = 0
+    from ..taint import returning_listing_order
+    wrappers = returning_listing_order(idx, scope)
+    if wrappers:
+        r1.note(f"functions returning a sequence in directory-listing order (their calls count as listings): {sorted(wrappers)}")
     for f in funcs:
         cfg, du, pm = fctx(f)
-        ot = OrderTaint(f.node, du)
+        ot = OrderTaint(f.node, du, extra_sources=wrappers)
         if not ot.sources:
             continue
         for s in ot.sources:
@@ -125,7 +131,7 @@ def run(ctx) -> None:
         for f in idx.all_functions():
             if f.module.relpath in scope:
                 continue
-            if not any(isinstance(n, ast.Call) and OrderTaint.is_source(n) for n in ast.walk(f.node)):
+            if not any(isinstance(n, ast.Call) and OrderTaint.is_listing_call(n) for n in ast.walk(f.node)):
                 continue
             cfg, du, pm = fctx(f)
             ot = OrderTaint(f.node, du)
@@ -153,27 +159,49 @@ def run(ctx) -> None:
     if len(fields) != 1:
         raise AnalysisError(f"weight-file pattern has {len(fields)} fields, expected 1: {pat}")
     globpat_expected = pat.replace(fields[0], "*")
-    globs = calls(rf.node, "glob.glob", suffix=False)
     from ..sem import Sem as _Sem
-    RS = _Sem(idx, rf)
-    for g in globs:
-        r2.instance(f"{rf.short}: {norm1(g, 70)}")
-        a = g.args[0]
-        if not (isinstance(a, ast.Call) and call_name(a) == "os.path.join"):
-            a = RS.resolve(a, RS.du.node_of_expr(g))
-        gp = fstring_pattern(a.args[-1]) if isinstance(a, ast.Call) and call_name(a) == "os.path.join" else None
-        r2.check(gp == globpat_expected, f"glob pattern {gp!r} is the writer's pattern with the index wildcarded",
-                 rf, g, f"glob pattern {gp!r} does not match the files written as {pat!r} (expected {globpat_expected!r})")
-    # the parser: [int(<chain on f>) for f in files]
+    # the listing and the index parser may live in read_factors or in a function of the same module it calls
+    rf0 = idx.function(RG, "read_factors")
+    cand_fs = [rf]
+    seen_f = {rf0.name}
+    work_f = [rf0]
+    while work_f:
+        g0 = work_f.pop()
+        for c_ in ast.walk(g0.node):
+            if isinstance(c_, ast.Call) and isinstance(c_.func, ast.Name) and c_.func.id in rf0.module.functions and c_.func.id not in seen_f:
+                seen_f.add(c_.func.id)
+                cand_fs.append(rf0.module.functions[c_.func.id])
+                work_f.append(rf0.module.functions[c_.func.id])
+    n_glob = 0
     parser = None
-    for lc in ast.walk(rf.node):
-        if isinstance(lc, ast.ListComp) and isinstance(lc.elt, ast.Call) and call_name(lc.elt) == "int" \
-                and isinstance(lc.generators[0].target, ast.Name):
-            parser = lc
-    if globs and parser is None:
+    PSem = None
+    for gf in cand_fs:
+        RS = _Sem(idx, gf)
+        for g in calls(gf.node, "glob.glob", suffix=False):
+            n_glob += 1
+            r2.instance(f"{gf.short}: {norm1(g, 70)}")
+            a = g.args[0]
+            if not (isinstance(a, ast.Call) and call_name(a) == "os.path.join"):
+                a = RS.resolve(a, RS.du.node_of_expr(g))
+            last = a.args[-1] if isinstance(a, ast.Call) and call_name(a) == "os.path.join" else None
+            if last is not None:
+                last = RS.resolve(last, RS.du.node_of_expr(g))
+            gp = fstring_pattern(last) if last is not None else None
+            r2.check(gp == globpat_expected, f"glob pattern {gp!r} is the writer's pattern with the index wildcarded",
+                     gf, g, f"glob pattern {gp!r} does not match the files written as {pat!r} (expected {globpat_expected!r})")
+        # the parser: [int(<chain on f>) for f in files]
+        for lc in ast.walk(gf.node):
+            if isinstance(lc, ast.ListComp) and isinstance(lc.elt, ast.Call) and call_name(lc.elt) == "int" \
+                    and isinstance(lc.generators[0].target, ast.Name):
+                parser, PSem = lc, RS
+    if n_glob and parser is None:
         raise AnalysisError("read_factors: index parser `[int(...) for f in files]` not found")
     if parser is not None:
         var = parser.generators[0].target.id
+        PSem.keep_names = {var}
+        st_p = enclosing(PSem.pm, parser, ast.stmt)
+        elt_r = PSem._res_comp(parser.elt, PSem.cfg.node(st_p), 8, set(), True, {var})
+        PSem.keep_names = set()
         spec = fields[0][1:-1]
         fmt = "{" + spec + "}"
         bad = None
@@ -183,7 +211,7 @@ def run(ctx) -> None:
                 sample = d + "/" + pat.replace(fields[0], fmt.format(i))
                 n += 1
                 try:
-                    got = _eval_str_chain(parser.elt, var, sample)
+                    got = _eval_str_chain(elt_r, var, sample)
                 except (ValueError, IndexError) as ex:
                     got = f"{type(ex).__name__}"
                 if got != i:
